@@ -24,6 +24,10 @@ TReset ==
   /\ pending' = <<>> /\ st' = "open" /\ errs' = 0 /\ ntoks' = 0 /\ done' = FALSE
   /\ tid' = Ev.t /\ toks' = <<>> /\ bsz' = Ev.bsize /\ batches' = <<>>
 TRead == IsEv("read") /\ Deliver(Ev.data, Ev.err) /\ UNCHANGED <<tid, toks, bsz, batches>>
+\* a run of Ev.n reads that returned (0, nil): any number of them, anywhere before the end, changes nothing
+\* (n stuttering Deliver(<<>>, "nil") steps of Scanner.tla; ScannerStall.tla: StallNoop / StallReturns / StallLaw)
+TStall == IsEv("stall") /\ st = "open" /\ ~done /\ Ev.n >= 1
+          /\ UNCHANGED <<pending, st, errs, ntoks, done, tid, toks, bsz, batches>>
 TTok  == IsEv("tok") /\ Emit(Ev.data) /\ toks' = Append(toks, Ev.data) /\ UNCHANGED <<tid, bsz, batches>>
 TErr  == IsEv("err") /\ ReportErr /\ UNCHANGED <<tid, toks, bsz, batches>>
 TEnd  == IsEv("end") /\ End /\ UNCHANGED <<tid, toks, bsz, batches>>
@@ -54,7 +58,7 @@ TBLate ==
   /\ Ev.i \in 1..Len(batches) /\ batches[Ev.i] = Ev.lines
   /\ UNCHANGED <<pending, st, errs, ntoks, done, tid, toks, bsz, batches>>
 
-TStep == TReset \/ TRead \/ TTok \/ TErr \/ TEnd \/ TLate \/ TBatch \/ TBLate
+TStep == TReset \/ TRead \/ TStall \/ TTok \/ TErr \/ TEnd \/ TLate \/ TBatch \/ TBLate
 
 RECURSIVE NextReset(_)
 NextReset(i) == IF i > Len(Trace) \/ Trace[i].event = "reset" THEN i ELSE NextReset(i + 1)
